@@ -78,3 +78,25 @@ Theorem C12_wt_new : forall w seq, BinWTP.width_ok w -> Forall (fun x => x < 2 ^
     forall h, wtit_run (wt_get_unchecked w false t) (wtit_new (w_n t)) h = Val (deque_run seq h).
 Proof. exact WrapP.wt_new_iter. Qed.
 Print Assumptions C12_wt_new.
+
+(* ---- the borrowing bit iterator REGENERATED from src/bitvector/mod.rs (T5, Gen/FnsIters.v: BitVectorIter::next / len):
+   the i-th call returns the i-th bit and then None for ever, len is exact *)
+From QwtModel Require Import Loops BitVecW FnsIters FnsItersOk.
+Theorem C12_source_bits : forall b i, bv_inv b ->
+  g_bvit_next (bv_words b) (bv_nbits b) i =
+    Val (bv_words b, bv_nbits b, (if i <? len (bv_abs b) then i + 1 else i), nthN (bv_abs b) i) /\
+  (i <= len (bv_abs b) -> g_bvit_len (bv_nbits b) i = Val (len (bv_abs b) - i)).
+Proof. exact g_bvit_correct. Qed.
+Print Assumptions C12_source_bits.
+Theorem C12_source_bits_next : forall b i, i < 2 ^ 64 - 1 ->
+  g_bvit_next (bv_words b) (bv_nbits b) i =
+  let! (v, i') := bvit_next b i in Val (bv_words b, bv_nbits b, i', v).
+Proof. exact g_bvit_next_ok. Qed.
+Print Assumptions C12_source_bits_next.
+Theorem C12_source_positions_total : forall bit b st fuel, bv_inv b -> pi_reach b st ->
+  (S (length (bv_words b)) <= fuel)%nat ->
+  exists cp' cwp' cw',
+  g_pi_next bit fuel (bv_words b) (bv_nbits b) (pi_cur_position st) (pi_cur_word_pos st) (pi_cur_word st) =
+  Val (bv_words b, bv_nbits b, cp', cwp', cw', fst (pi_next bit b st)).
+Proof. exact g_pi_next_total. Qed.
+Print Assumptions C12_source_positions_total.
